@@ -273,32 +273,45 @@ Definition st_concat (l : list ((N * bytes) * bytes)) : list (N * bytes) :=
                       let a := fst (fst kv) in
                       aput a ((match aget a acc with Some b => b | None => [] end) ++ snd (fst kv) ++ snd kv) acc)
                    l []).
+(** an account whose record changed is hashed anyway: for it, state changes with an empty
+    concatenation (the key "" deleted) are indistinguishable from no state change *)
+Definition st_sig (c : chgset) : list (N * bytes) :=
+  filter (fun ab : N * bytes => nonempty (snd ab) || negb (existsb (N.eqb (fst ab)) (map fst (cs_acct c))))
+         (st_concat (cs_st c)).
 Definition fr_concat_eqb (x y : flushrec) : bool :=
   bytes_eqb (fr_prev x) (fr_prev y) &&
   list_eqb (fun p q : N * sacct => (fst p =? fst q) && sacct_eqb (snd p) (snd q)) (cs_acct (fr_chg x)) (cs_acct (fr_chg y)) &&
-  list_eqb (fun p q : N * bytes => (fst p =? fst q) && bytes_eqb (snd p) (snd q))
-           (st_concat (cs_st (fr_chg x))) (st_concat (cs_st (fr_chg y))) &&
+  list_eqb (fun p q : N * bytes => (fst p =? fst q) && bytes_eqb (snd p) (snd q)) (st_sig (fr_chg x)) (st_sig (fr_chg y)) &&
   list_eqb N.eqb (fr_touched x) (fr_touched y).
 
-(** 0 = fine; 1 = same (prev, changes, written accounts) but different roots;
+(** an account that received a record write (possibly reverted) although its record did not change:
+    the implementation may or may not hold a dirty copy of it, and the root depends on that
+    (open finding C10-root-noop-account-write) *)
+Definition noop_touched (f : flushrec) : bool :=
+  existsb (fun a => negb (existsb (N.eqb a) (map fst (cs_acct (fr_chg f))))) (fr_touched f).
+
+(** 0 = fine;
+    1 = same (prev, changes), no account written without changing, but different roots;
     2 = different (prev, changes) but equal roots;
-    3 = same (prev, changes), different sets of written account records, different roots;
+    3 = same (prev, changes), some account written without changing, different roots;
     4 = different change sets with the same key/value concatenation per account, equal roots *)
 Definition fr_pair_check (x y : flushrec) : N :=
   let same_root := bytes_eqb (fr_root x) (fr_root y) in
-  if fr_full_eqb x y then (if same_root then 0 else 1)
-  else if fr_key_eqb x y then (if same_root then 0 else 3)
+  if fr_key_eqb x y then
+    (if same_root then 0 else if noop_touched x || noop_touched y then 3 else 1)
   else if same_root then (if fr_concat_eqb x y then 4 else 2) else 0.
 
+(** over all pairs: the most severe kind (1 and 2 are not explained by a listed finding) *)
+Definition worse (r1 r2 : N) : N := if r1 =? 0 then r2 else if r2 =? 0 then r1 else N.min r1 r2.
 Fixpoint fr_check_one (x : flushrec) (l : list flushrec) : N :=
   match l with
   | [] => 0
-  | y :: t => let r := fr_pair_check x y in if r =? 0 then fr_check_one x t else r
+  | y :: t => worse (fr_pair_check x y) (fr_check_one x t)
   end.
 Fixpoint roots_check (l : list flushrec) : N :=
   match l with
   | [] => 0
-  | x :: t => let r := fr_check_one x t in if r =? 0 then roots_check t else r
+  | x :: t => worse (fr_check_one x t) (roots_check t)
   end.
 
 (** * judge *)
@@ -319,25 +332,47 @@ Definition model_diff (e : env) (c : cfg) (h : hcase) : option N * bool :=
   (first_diff out_eqb outs (hc_outs h) 0, s_bad m).
 
 (** mode: bit 0 = compare reads with the specification, bit 1 = check the roots,
-    bit 2 = also the strict reading (existence flags, empty values in queries).
+    bit 2 = also the strict reading (existence flags, empty values in queries),
+    bit 3 = stored code hash = Keccak of the stored code in every raw dump ((2, 700000 + ...)).
     Verdict detail: history index * 10000 + step for (1,_) and (2,_) from the specification;
     (2, 500000 + history index * 10000 + step) when only the strict reading fails;
     (2, 900000 + r) for a root check failure of kind r (see [fr_pair_check]). *)
+(** P_b, part 3: in every raw dump of the store, an account's code hash is the Keccak of the code
+    stored for it (of the empty code when none is stored).  Some i = first dump that violates it. *)
+Definition db_code_consistent (e : env) (d : dbview) : bool :=
+  forallb (fun row : N * acct * bytes =>
+             match ac_ch (snd (fst row)) with
+             | None => true
+             | Some h => bytes_eqb h (e_kec e (match alookup N.eqb (fst (fst row)) (v_code d) with Some c => c | None => [] end))
+             end) (v_acct d).
+Fixpoint dumps_consistent (e : env) (outs : list out) (i : N) : option N :=
+  match outs with
+  | [] => None
+  | ODb d :: t => if db_code_consistent e d then dumps_consistent e t (i + 1) else Some i
+  | _ :: t => dumps_consistent e t (i + 1)
+  end.
+
 Definition pb_verdict (e : env) (mode : N) (g : list hcase) : verdict :=
   let runs := map (fun h => spec_agree false e spec0 (hc_ops h) (hc_outs h) 0) g in
-  let agree := first_some (map fst runs) 0 in
+  let agree := if N.testbit mode 0 then first_some (map fst runs) 0 else None in
   let flushes := flat_map (fun r : option N * spec => sp_flushes (snd r)) runs in
-  match (if N.testbit mode 0 then agree else None) with
+  let rc := if N.testbit mode 1 then roots_check flushes else 0 in
+  let dumps := if N.testbit mode 3 then first_some (map (fun h => dumps_consistent e (hc_outs h) 0) g) 0 else None in
+  let strict := if N.testbit mode 2
+                then first_some (map (fun h => fst (spec_agree true e spec0 (hc_ops h) (hc_outs h) 0)) g) 0 else None in
+  (* most severe first: failures no listed finding can explain before those one may explain *)
+  match agree with
   | Some (hi, i) => V_propfalse (hi * 10000 + i)
   | None =>
-      let rc := if N.testbit mode 1 then roots_check flushes else 0 in
-      if negb (rc =? 0) then V_propfalse (900000 + rc)
-      else if N.testbit mode 2 then
-        match first_some (map (fun h => fst (spec_agree true e spec0 (hc_ops h) (hc_outs h) 0)) g) 0 with
-        | Some (hi, i) => V_propfalse (500000 + hi * 10000 + i)
-        | None => V_ok
-        end
-      else V_ok
+      match dumps with
+      | Some (hi, i) => V_propfalse (700000 + hi * 10000 + i)
+      | None =>
+          if (rc =? 1) || (rc =? 2) then V_propfalse (900000 + rc)
+          else match strict with
+               | Some (hi, i) => V_propfalse (500000 + hi * 10000 + i)
+               | None => if rc =? 0 then V_ok else V_propfalse (900000 + rc)
+               end
+      end
   end.
 
 (** correspondence under one configuration: (0,_) reproduced, (1,i) differs, (3,_) left the domain *)
